@@ -11,5 +11,9 @@ P_putdel  == [s \in {1, 2} |-> IF s = 1 THEN <<PutR("f", "c1", "c2")>> ELSE <<De
 P_badput  == [s \in {1, 2} |-> IF s = 1 THEN <<BadPut("f", "c1", "c2")>> ELSE <<PutR("f", "c1", "c3"), GetR("f")>>]
 P_badsame == [s \in {1, 2} |-> IF s = 1 THEN <<BadPut("f", "c1", "c2")>> ELSE <<PutR("f", "c1", "c2"), GetR("f")>>]   \* same path, same DECLARED hash, one liar
 P_create  == [s \in {1, 2} |-> IF s = 1 THEN <<PutR("g", "none", "c2")>> ELSE <<PutR("g", "none", "c2"), DelR("g", "c2")>>]
+\* a client writes back the very version it last saw (declared hash = expected hash) while the other client replaces /
+\* deletes that version: the compare-and-swap must still look at the hub's CURRENT hash
+P_writeback == [s \in {1, 2} |-> IF s = 1 THEN <<PutR("f", "c1", "c2")>> ELSE <<PutR("f", "c1", "c1"), GetR("f")>>]
+P_delwb   == [s \in {1, 2} |-> IF s = 1 THEN <<DelR("f", "c1")>> ELSE <<PutR("f", "c1", "c1"), GetR("f")>>]
 c_Init0 == (Live("f") :> "c1")
 =============================================================================
